@@ -213,6 +213,22 @@ impl Oracle for C10Oracle {
                 self.failovers_in_link = 0;
             }
             (ROp::AutoScale { name, nodes }, _) => {
+                // an ACCEPTED request that leaves nothing pending means the cluster already is a balanced
+                // cluster of the requested size (a half-done scale-out must be completed by the retry, not skipped)
+                if let (Ok(_), Some(qc)) = (st.res, post.clusters.get(name)) {
+                    if !qc.is_migrating() {
+                        let with_slots = qc.chunks.iter().filter(|c| c.has_any_slots()).count();
+                        ensure!(
+                            with_slots * 4 == *nodes && qc.chunks.len() * 4 == *nodes,
+                            "C10:auto-scale-accepted-but-not-performed",
+                            "auto_scale_node_number({}, {}) was accepted and no migration is pending, but the cluster has {} nodes of which {} own slots",
+                            name,
+                            nodes,
+                            qc.chunks.len() * 4,
+                            with_slots * 4
+                        );
+                    }
+                }
                 // the auto API may have started either direction
                 if let (Some(pc), Some(qc)) = (pre.clusters.get(name), post.clusters.get(name)) {
                     if !pc.is_migrating() && qc.is_migrating() {
